@@ -141,7 +141,7 @@ var crashOwners = map[string][]string{
 	"C12": {"rescache.lcs(", "processResetGetResponse", "processResetModel", "processResetCollection", "handleSystemReset", "resourcePattern"},
 	"C13": {"handleQueryEvent", "DecodeEventQueryResponse"},
 	"C19": {"rescache.(*Throttle)"},
-	"C09": {"mqUnsubscribe", "removeCount", "addCount", "unsubQueue", "timerqueue"},
+	"C09": {"mqUnsubscribe", "removeCount", "addCount", "unsubQueue", "timerqueue", "addSubscriber", "(*ResourceSubscription).Unsubscribe", "getSubscription"},
 }
 
 func traceHas(tr []Decision, kind, sub string) bool {
@@ -239,8 +239,15 @@ func check(prop, tier string, opts map[string]string) int {
 				}
 				cmu.Lock()
 				crashes = append(crashes, wo)
+				nc := len(crashes)
 				cmu.Unlock()
 				from += len(wo.results) + 1
+				if nc >= 12 {
+					// enough crashes to report: a tree that dies (or deadlocks, which
+					// costs the watchdog's real-time limit each time) in run after run
+					// is not explored to the end
+					break
+				}
 			}
 		}(i, from, to)
 	}
